@@ -1,3 +1,10 @@
+-- Root of the library: models (core-only) and property theorems.
 import Dblib.Util
 import Dblib.Model.PacketQueue
 import Dblib.Model.PacketQueueDriver
+import Dblib.Model.Isolation
+import Dblib.Model.Decimal
+import Dblib.Model.Dsn
+import Dblib.Model.NamePool
+import Dblib.Model.Capability
+import Dblib.Props.C20
